@@ -579,4 +579,58 @@ theorem delivery_after_teardown (L : Limits) (hT : L.tearDownOnPartial = true)
   refine ⟨h2.open_, ?_⟩
   obtain ⟨done, todo, _, hs, hl, _, _⟩ := h2.topic t
   exact ⟨done, todo, hs, hl⟩
+/-! ### chunk lengths and chunk count of `split` -/
+
+theorem splitLoop_lens (lim fuel : Nat) (buf : Bytes) :
+    (splitLoop lim fuel buf).map List.length = splitLensLoop lim fuel buf.length := by
+  induction fuel generalizing buf with
+  | zero => rfl
+  | succ fuel ih =>
+    simp only [splitLoop, splitLensLoop]
+    split
+    · rename_i h
+      simp only [List.map_cons, ih, List.length_take, List.length_drop]
+      rw [Nat.min_eq_left h]
+    · split <;> simp
+
+theorem split_lens_eq (buf : Bytes) (lim : Nat) : (split buf lim).map List.length = splitLens buf.length lim := by
+  unfold split splitLens
+  split
+  · rename_i h; simp [h]
+  · exact splitLoop_lens lim _ buf
+
+theorem splitLensLoop_length (lim : Nat) (hl : 0 < lim) (fuel n : Nat) (hf : n < fuel) :
+    (splitLensLoop lim fuel n).length = (n + lim - 1) / lim := by
+  induction fuel generalizing n with
+  | zero => omega
+  | succ fuel ih =>
+    simp only [splitLensLoop]
+    split
+    · rename_i h
+      simp only [List.length_cons, ih (n - lim) (by omega)]
+      have : n + lim - 1 = (n - lim + lim - 1) + lim := by omega
+      rw [this, Nat.add_div_right _ hl]
+    · split
+      · rename_i h1 h2
+        simp only [List.length_cons, List.length_nil]
+        rw [eq_comm, Nat.div_eq_iff hl]; omega
+      · rename_i h1 h2
+        have : n = 0 := by omega
+        subst this
+        simp only [List.length_nil, Nat.zero_add]
+        exact (Nat.div_eq_of_lt (by omega)).symm
+
+theorem splitLensLoop_sum (lim : Nat) (hl : 0 < lim) (fuel n : Nat) (hf : n < fuel) :
+    (splitLensLoop lim fuel n).sum = n := by
+  induction fuel generalizing n with
+  | zero => omega
+  | succ fuel ih =>
+    simp only [splitLensLoop]
+    split
+    · rename_i h
+      simp only [List.sum_cons, ih (n - lim) (by omega)]; omega
+    · split
+      · simp
+      · simp; omega
+
 end Canopy.Mux
